@@ -20,6 +20,11 @@ REVERTS = {
     'fix: a backslash as the last token': ('revert-d2-trailing-backslash', 'C06'),
     "fix: '\\left.|'": ('revert-d5-left-dot-bar', 'C17 C12'),
     'fix: char_pos_to_line': ('revert-d14-bisect', 'C13'),
+    'fix: environment bodies were parsed twice': ('revert-d18-d9-end-peek', 'C06 C01'),
+    "fix: '\\end {name}'": ('revert-d12-end-forward5', 'C08'),
+    'fix: delete/replace/remove edited': ('revert-d6-identity-lookup', 'C05 C15'),
+    'fix: inserted/appended nodes were stored': ('revert-d20-unwrap', 'C15'),
+    'fix: .text skipped text': ('revert-d16-text-str', 'C15'),
 }
 
 
